@@ -322,9 +322,26 @@ def stepOracle (s : OD) (ts : List String) (line : String) : OD × Option String
     | none => (s, some "bad-op")
   | _ => (s, some "bad-op")
 
+/-- `ghost` mode: the verdicts the oracle should give, computed from the model's monitor fields (the ones the
+    theorems of `Sentinel.Props.C12` speak about) instead of from the trace: used by the check to validate the
+    oracle's attribution of early admissions / reordered notifications to the known findings -/
+def stepGhost (s : DS) (ts : List String) (line : String) : DS × Option String :=
+  let (s', r) := stepModel s ts line
+  match ts, r with
+  | _, some "bad-op" => (s', r)
+  | "sched" :: _, some _ => (s', some "ok")
+  | ["results"], some _ => (s', some "ok")
+  | ["log"], some _ => (s', some (if s'.sh.log ≠ s'.sh.hist then "known:listener-order" else "ok"))
+  | ["final"], some _ =>
+      (s', some (if s'.sh.earlyOut then "bad earlyOut"
+                 else if s'.sh.earlyNoDl then "known:open-without-deadline"
+                 else if s'.sh.earlyStale then "known:stale-retry-check" else "ok"))
+  | _, _ => (s', r)
+
 def run (mode : String) : IO Unit :=
   match mode with
   | "model" => loop ({} : DS) stepModel
+  | "ghost" => loop ({} : DS) stepGhost
   | "oracle" => loop ({} : OD) stepOracle
   | _ => IO.eprintln s!"C12: unknown mode {mode}"
 
